@@ -30,6 +30,17 @@ def check(ctx, cfg):
     r3(ctx, cfg)
     r5(ctx, cfg)
     r6(ctx, cfg)
+    r7(ctx, cfg)
+
+
+def r7(ctx, cfg):
+    """who may change the ledger"""
+    F = cfg.facts
+    R = "C09.R7"
+    q.who_may_call(ctx, R, F, B + "set_balance", {B + "init_balance", B + "mint", B + "burn"}, "balances are written by init_balance, mint and burn only")
+    q.who_may_call(ctx, R, F, B + "mint", {B + "send", SUDO}, "coins are created only by a transfer's credit side or BankSudo::Mint")
+    q.who_may_call(ctx, R, F, B + "burn", {B + "send", EXEC}, "coins are destroyed only by a transfer's debit side or BankMsg::Burn")
+    q.who_may_call(ctx, R, F, B + "send", {EXEC}, "transfers are performed by BankMsg::Send only")
 
 
 def _ok_of_call(o, key):
